@@ -1,0 +1,92 @@
+//go:build verif
+
+package floodsub
+
+import (
+	"sort"
+	"sync/atomic"
+
+	"github.com/aperturerobotics/bifrost/pubsub"
+)
+
+// verifGateFn is the gate callback installed by the verification harness.
+var verifGateFn atomic.Pointer[func(point string, m *FloodSub, objs ...any)]
+
+// VerifSetGate installs fn (nil to remove). fn is called synchronously by the goroutine that
+// reaches one of the named points below, so it can record the event and/or block that
+// goroutine to force a schedule. Points (objs):
+//
+//	"floodsub.seen"      (prevHopPeer peer.ID, pkt *peer.SignedMsg)  handleValidMessage, message id newly marked as seen
+//	"floodsub.deliver"   (sub pubsub.Subscription, msg pubsub.Message) delivery goroutine, before it locks the subscription
+//	"floodsub.delivered" (sub pubsub.Subscription, msg pubsub.Message) delivery goroutine, after it called the handlers and unlocked
+//	"floodsub.execTop"   ()  Execute, top of the loop, before the new-session region
+//	"floodsub.holdBreak" ()  Execute, between the new-session region and the channel sweep region
+//	"floodsub.execSent"  ()  Execute, after the subscription changes were queued to the peers
+//
+// "floodsub.deliver" and the Execute points are called without any floodsub lock held;
+// "floodsub.seen" is called without m.mtx held.
+func VerifSetGate(fn func(point string, m *FloodSub, objs ...any)) {
+	if fn == nil {
+		verifGateFn.Store(nil)
+		return
+	}
+	verifGateFn.Store(&fn)
+}
+
+func verifGate(point string, m *FloodSub, objs ...any) {
+	if fn := verifGateFn.Load(); fn != nil {
+		(*fn)(point, m, objs...)
+	}
+}
+
+// VerifState is a snapshot of the router tables.
+type VerifState struct {
+	// Channels maps channel id to the number of local subscriptions (the key may map to 0
+	// until Execute sweeps it).
+	Channels map[string]int
+	// PeerChannels maps channel id to the sorted peers known to subscribe to it.
+	PeerChannels map[string][]pubsub.PeerLinkTuple
+	// Peers are the sessions in the peers map; the value tells whether the session was
+	// initialised by Execute (ctx != nil).
+	Peers map[pubsub.PeerLinkTuple]bool
+	// IncSessions is the number of sessions not yet initialised by Execute.
+	IncSessions int
+}
+
+// VerifSnapshot returns a snapshot of the router tables (takes m.mtx).
+func (m *FloodSub) VerifSnapshot() *VerifState {
+	st := &VerifState{
+		Channels:     make(map[string]int),
+		PeerChannels: make(map[string][]pubsub.PeerLinkTuple),
+		Peers:        make(map[pubsub.PeerLinkTuple]bool),
+	}
+	m.mtx.Lock()
+	defer m.mtx.Unlock()
+	for chid, subs := range m.channels {
+		st.Channels[chid] = len(subs)
+	}
+	for chid, peers := range m.peerChannels {
+		l := make([]pubsub.PeerLinkTuple, 0, len(peers))
+		for p := range peers {
+			l = append(l, p)
+		}
+		sort.Slice(l, func(i, j int) bool {
+			if l[i].PeerID != l[j].PeerID {
+				return l[i].PeerID < l[j].PeerID
+			}
+			return l[i].LinkID < l[j].LinkID
+		})
+		st.PeerChannels[chid] = l
+	}
+	for tpl, s := range m.peers {
+		st.Peers[tpl] = s.ctx != nil
+	}
+	st.IncSessions = len(m.incSessions)
+	return st
+}
+
+// VerifSeen reports whether the message id is in the seen-messages cache.
+func (m *FloodSub) VerifSeen(msgID string) bool {
+	_, ok := m.seenMessages.Get(msgID)
+	return ok
+}
